@@ -324,6 +324,21 @@ func diffStrMaps(a, b map[string]string) (string, string) {
 	return "", ""
 }
 
+func sameMultiset(a, b []string) bool {
+	if len(a) != len(b) {
+		return false
+	}
+	x, y := append([]string{}, a...), append([]string{}, b...)
+	sort.Strings(x)
+	sort.Strings(y)
+	for i := range x {
+		if x[i] != y[i] {
+			return false
+		}
+	}
+	return true
+}
+
 type node struct {
 	snap    *snapshot
 	tr      tracker
@@ -363,10 +378,11 @@ func explore(sc *scenario, kindID, tier string) *scenarioStats {
 	allMask := uint(1)<<uint(len(sc.Pods)) - 1
 
 	// ---- phase 1: every permutation of the first reconciles, then a full second pass (same order) and a third (reverse order)
+	w := newWorld(sc, nil)
 	for _, perm := range permutations(len(sc.Pods)) {
 		var canon [2]string
 		for rep := 0; rep < 2; rep++ { // executed twice: determinism check of the harness+controller
-			w := newWorld(sc, nil)
+			w.reset(nil)
 			tr := &tracker{}
 			hist := []string{}
 			run := func(order []int) bool {
@@ -423,9 +439,10 @@ func explore(sc *scenario, kindID, tier string) *scenarioStats {
 	// ---- phase 2: BFS over histories of reconciles and foreign updates, from the empty store, canonical-state dedup
 	seen := map[string]bool{}
 	stores := map[string]bool{}
-	root := &node{snap: newWorld(sc, nil).snapshot()}
+	w.reset(nil)
+	root := &node{snap: w.snapshot()}
 	key := func(canon string, tr tracker) string { return fmt.Sprintf("%s#%d#%v", canon, tr.since, tr.foreign > 0) }
-	rootCanon := newWorld(sc, nil).view().canon()
+	rootCanon := w.view().canon()
 	seen[key(rootCanon, root.tr)] = true
 	stores[rootCanon] = true
 	frontier := []*node{root}
@@ -449,7 +466,7 @@ func explore(sc *scenario, kindID, tier string) *scenarioStats {
 				}
 			}
 			for _, l := range labels {
-				w := newWorld(sc, nd.snap)
+				w.reset(nd.snap)
 				tr := nd.tr
 				hist := append(append([]string{}, nd.hist...), l)
 				vs, he := step(w, &tr, l, hist, st)
@@ -499,12 +516,33 @@ func explore(sc *scenario, kindID, tier string) *scenarioStats {
 
 	// ---- (2) differential oracle over all all-reconciled stores
 	out.Finals = len(finals)
-	for i := 1; i < len(finals); i++ {
-		if f, d := diffFinal(finals[0], finals[i]); f != "" {
-			v := engine.Violation{Property: "C18", Key: fmt.Sprintf("C18/order-dependent kind=%s field=%s", sc.Kind, f),
-				Message: fmt.Sprintf("%s: the PodGroup state after all pods were reconciled depends on the history: %v vs %v: %s", sc.Name, finals[0].hist, finals[i].hist, d),
-				Replay:  replayData{Scenario: sc.Name, Chain: sc.Chain, Law: "order-independence", History: finals[0].hist, Other: finals[i].hist, Result: finals[i].view}}
-			addV([]engine.Violation{v})
+	// order-dependence: stores reached by the same multiset of actions in a different order must be equal;
+	// repeat-dependence: stores reached by different multisets (more passes, interleaved foreign updates) must
+	// agree on everything the grouper owns.
+	report := func(law string, x, y *finalState, f, d string) {
+		v := engine.Violation{Property: "C18", Key: fmt.Sprintf("C18/%s kind=%s field=%s", law, sc.Kind, f),
+			Message: fmt.Sprintf("%s: the PodGroup state after all pods were reconciled depends on the history: %v vs %v: %s", sc.Name, x.hist, y.hist, d),
+			Replay:  replayData{Scenario: sc.Name, Chain: sc.Chain, Law: "order-independence", History: x.hist, Other: y.hist, Result: y.view}}
+		addV([]engine.Violation{v})
+	}
+	groups := map[string]*finalState{}
+	var firsts []*finalState
+	for _, fs := range finals {
+		ms := append([]string{}, fs.hist...)
+		sort.Strings(ms)
+		k := strings.Join(ms, ",")
+		if ref, ok := groups[k]; ok {
+			if f, d := diffFinal(ref, fs); f != "" {
+				report("order-dependent", ref, fs, f, d)
+			}
+			continue
+		}
+		groups[k] = fs
+		firsts = append(firsts, fs)
+	}
+	for i := 1; i < len(firsts); i++ {
+		if f, d := diffFinal(firsts[0], firsts[i]); f != "" {
+			report("repeat-dependent", firsts[0], firsts[i], f, d)
 		}
 	}
 
